@@ -61,6 +61,8 @@ var c20Templates = []struct{ name, code string }{
 	{"lt-big", "r = (%s < 9007199254740994) ?? \"E\""}, {"gt-big", "r = (%s > 9007199254740992) ?? \"E\""},
 	{"le-big", "r = (%s <= 9007199254740992) ?? \"E\""}, {"ge-big-l", "r = (9007199254740994 >= %s) ?? \"E\""},
 	{"lt-negbig", "r = (-9007199254740994 < %s) ?? \"E\""}, {"neq", "r = (%s != 5) ?? \"E\""}, {"eq-float", "r = (%s == 2.5) ?? \"E\""},
+	{"slice-hi", "r = ([7, 8, 9][0:%s]) ?? \"E\""}, {"slice-cap", "r = ([7, 8, 9][0:1:%s]) ?? \"E\""},
+	{"delete-key", "t = {5: 1, \"ab\": 2}; r = \"ok\"; try { delete(t, %s); r = t } catch e { r = \"E\" }"},
 	{"eq-self", "r = (%s == v) ?? \"E\""}, {"neq-self", "r = (v != %s) ?? \"E\""}, {"deref", "r = \"ok\"; try { r = *%s } catch e { r = \"E\" }"}, {"tostr", "r = (\"\" + %s) ?? \"E\""}, {"keys-like", "r = []; try { for k, v in %s { r += v } } catch e { r = \"E\" }"},
 }
 
@@ -96,6 +98,58 @@ var c20MethodTemplates = []struct{ name, code string }{
 	{"m-len", "r = len(%s) ?? \"E\""}, {"m-index", "r = (%s[0]) ?? \"E\""}, {"m-key", "r = (%s[\"k\"]) ?? \"E\""}, {"m-member", "r = (%s.k) ?? \"E\""},
 	{"m-forin", "r = []; try { for x in %s { r += x } } catch e { r = \"E\" }"}, {"m-add", "r = (%s + 1) ?? \"E\""}, {"m-tostr", "r = (\"\" + %s) ?? \"E\""},
 	{"m-eq", "r = (%s == v) ?? \"E\""}, {"m-arg", "r = probe(%s)"}, {"m-deref", "r = \"ok\"; try { r = *%s } catch e { r = \"E\" }"},
+}
+
+// operations on typed make and channels (no model): sizes, send operands, channel operands
+var c20ImplTemplates = []struct{ name, code string }{
+	{"make-len", "r = \"ok\"; try { r = len(make([]int64, %s)) } catch e { r = \"E\" }"},
+	{"make-cap", "r = \"ok\"; try { r = len(make([]int64, 0, %s)) } catch e { r = \"E\" }"},
+	{"make-chan", "r = \"ok\"; try { c = make(chan int64, %s); r = \"made\" } catch e { r = \"E\" }"},
+	{"chan-send", "c = make(chan interface, 1); r = \"ok\"; try { c <- %s; r = (<- c) } catch e { r = \"E\" }"},
+	{"chan-send-typed", "c = make(chan int64, 1); r = \"ok\"; try { c <- %s; r = (<- c) } catch e { r = \"E\" }"},
+	{"chan-use", "r = \"ok\"; try { %s <- 5; r = (<- %s) } catch e { r = \"E\" }"},
+	{"chan-close", "r = \"ok\"; try { close(%s); r = \"closed\" } catch e { r = \"E\" }"},
+	{"chan-forin", "r = []; try { q = %s; q <- 3; close(q); for x in q { r += x } } catch e { r = \"E\" }"},
+	{"typed-store", "t = make([]int64, 1); r = \"ok\"; try { t[0] = %s; r = t[0] } catch e { r = \"E\" }"},
+	{"typed-index", "t = []int64{7, 8, 9}; r = (t[%s]) ?? \"E\""},
+}
+var c20ImplValues = []struct{ name, lit string }{
+	{"int", "3"}, {"zero", "0"}, {"float", "2.0"}, {"numstr", "\"2\""}, {"str", "\"ab\""}, {"true", "true"}, {"nil", "nil"}, {"neg", "-1"},
+	{"chan", "make(chan int64, 2)"}, {"ichan", "make(chan interface, 2)"}, {"slice", "[1]"},
+}
+
+func c20ImplPrograms(sample *Rand) []c20Prog {
+	var out []c20Prog
+	chains := c20Chains(2)
+	for _, t := range c20ImplTemplates {
+		for _, v := range c20ImplValues {
+			if strings.HasPrefix(t.name, "chan-send") && strings.HasSuffix(v.name, "chan") {
+				continue // `c <- v` with a channel on the right is a receive from v: it would block
+			}
+			base := "v = " + v.lit + "\n"
+			nargs := strings.Count(t.code, "%s")
+			fill := func(x string) string {
+				if nargs == 2 {
+					return fmt.Sprintf(t.code, x, x)
+				}
+				return fmt.Sprintf(t.code, x)
+			}
+			out = append(out, c20Prog{base + fill("v") + "\nr", []string{t.name, v.name, "var", "impl-only"}})
+			for _, ch := range chains {
+				if len(ch) > 1 && !sample.Chance(15, 100) {
+					continue
+				}
+				x := "v"
+				var names []string
+				for _, h := range ch {
+					x = c20Hops[h].wrap(x)
+					names = append(names, c20Hops[h].name)
+				}
+				out = append(out, c20Prog{base + fill(x) + "\nr", []string{t.name, v.name, strings.Join(names, ">"), "impl-only"}})
+			}
+		}
+	}
+	return out
 }
 
 func c20MethodPrograms(sample *Rand) []c20Prog {
@@ -144,5 +198,6 @@ func c20Programs(maxLen int, sample *Rand, limit int) []c20Prog {
 		}
 	}
 	out = append(out, c20MethodPrograms(sample)...)
+	out = append(out, c20ImplPrograms(sample)...)
 	return out
 }
